@@ -53,7 +53,7 @@ StreamNames ==
     \* refused names that are long in BYTES, with multi-byte characters at every alignment (error paths quote the name)
     LongOdd, <<18433>>, Cjk(21), Cjk(31), Cjk(32), [k \in 1..32 |-> 8364], <<97, 47>> \o [k \in 1..24 |-> IF k % 2 = 1 THEN 20013 ELSE 25991], <<97, 98>> \o [k \in 1..20 |-> 128512],
     \* a leading control character other than U+0005 is an ordinary name (only U+0005 marks the reserved streams)
-    <<1, 67>>, <<9, 120>>, <<31>> }
+    <<1, 67>>, <<31>> }
 StreamNamesQ == { <<97>>, <<48, 48>>, <<14336>>, Packable(62), Packable(63), <<233>>, <<201, 97>>, <<47, 233>>, <<18496, 97>>, <<>>,
                   N_Summary, N_Signature, T, <<48>>, <<97, 98, 95>>, LongOdd, <<18433>>, Cjk(31), Cjk(32),
                   <<97, 18496>>, <<1, 67>>, <<45>> \o Packable(60) }    \* "-" + 60 packable characters: 31 units when the run pairs up from its start       \* the table marker is a marker in first position only; a control character is not U+0005
